@@ -325,7 +325,8 @@ class PeakShaving(Strategy):
                     max_power = charge_limit
                 battery.soc = old_soc
 
-            # converged -> apply power
+            # converged -> apply power (charge within limit that is valid now)
+            cur_power = min(cur_power, max(gc.cur_max_power - gc.get_current_load(), 0))
             if cur_power < 0:
                 p = -battery.unload(self.interval, target_power=-cur_power)["avg_power"]
             else:
